@@ -94,14 +94,24 @@ def getRec : List (String × Rec α) → String → Option (Rec α)
   | [], _ => none
   | (k, r) :: t, n => if k = n then some r else getRec t n
 
+/-- the options `setup_optimizer` reads; everything else is stored and never looked at -/
+inductive OptKind where
+  | fit | bounds | mode | factor | prior | other
+  deriving DecidableEq, Repr
+
+def classify (o : String) : OptKind :=
+  if o = "fit" then .fit else if o = "bounds" then .bounds else if o = "mode" then .mode
+  else if o = "factor" then .factor else if o = "prior" then .prior else .other
+
 /-- `fitting_params[fit_param][fit_type] = value`, with `create_prior(value)` for the option `prior` -/
 def setOpt (mkPrior : OptVal α → Option (Prior α)) (l : Line α) (r : Rec α) : Option (Rec α) :=
-  if l.opt = "fit" then some { r with fit := l.val }
-  else if l.opt = "bounds" then some { r with bounds := some l.val }
-  else if l.opt = "mode" then some { r with mode := some l.val }
-  else if l.opt = "factor" then some { r with factor := some l.val }
-  else if l.opt = "prior" then (mkPrior l.val).map (fun p => { r with prior := some p })
-  else some r
+  match classify l.opt with
+  | .fit => some { r with fit := l.val }
+  | .bounds => some { r with bounds := some l.val }
+  | .mode => some { r with mode := some l.val }
+  | .factor => some { r with factor := some l.val }
+  | .prior => (mkPrior l.val).map (fun p => { r with prior := some p })
+  | .other => some r
 
 /-- `generate_fitting_parameters` on split lines; `none` = `create_prior` raised -/
 def group (mkPrior : OptVal α → Option (Prior α)) : List (Line α) → List (String × Rec α) → Option (List (String × Rec α))
